@@ -144,6 +144,11 @@ func runC20(r *simkit.Run) {
 	tick := 0
 	generatorConn := -1
 	srv.SetGate(func(req *pgsim.Request) pgsim.Action {
+		// prepare-only round trips (pgx statement cache misses) depend on which pooled connection a
+		// goroutine happened to get and have no effect: they are not scheduling points
+		if req.Prepare {
+			return pgsim.Proceed
+		}
 		v := s.Park("k0", "db", sqlKey(req), req)
 		if a, ok := v.(pgsim.Action); ok {
 			return a
